@@ -6,6 +6,8 @@ of the statements, a partition of the permuted list into parts, and a route by w
 (`input` calls, files given to `xtuml.load_metamodel`, files in a directory tree / members of a zip archive /
 a single file read by `bridgepoint.ooaofooa.ModelLoader.filename_input`).  Optionally the same rows are created
 through `MetaModel.new` (referred rows first) and by cloning the loaded instances into an empty metamodel.
+A case may carry `runit` = k: its REAL payloads then count multiples of 2**-k instead of 10**-6 (family `real-fine`: keys
+that are neighbours on a fine grid; the Lean model treats a REAL payload as an opaque integer, so K covers them as well).
 
   D  (property predicate; oracle = a nested loop over the rows' raw values *as generated*):
        linked(x, y) over association a  <=>  every referential value of x is non-null (not unset / id 0 / '')
@@ -39,7 +41,11 @@ RULE = ('random schemas (1-4 classes, 0-3 associations with 0-3 key attributes o
         'attributes, reflexive and phrased associations, several associations to one referred class over the same '
         'identifying attributes listed in different orders, short positional rows that leave trailing referential attributes unset, type names spelled in any letter case attribute by '
         'attribute, identifiers, classes inferred from INSERTs) populated from '
-        'a pool of <= 4 values per type (every fifth population from a pool of values with colliding hash(): -1 / -2, 1 / 2**61); per population: ALL permutations of the statements when there are <= 7 '
+        'a pool of <= 4 values per type (every fifth population from a pool of values with colliding hash(): -1 / -2, 1 / 2**61; '
+        'family real-fine: mostly REAL keys whose values are neighbours on a grid of 2**-30 - a base value of magnitude <= 2**20 + 1, the values '
+        'one step of 2**-30 / 2**-24 / 2**-20 / 2**-19 / 0.25 above and below it, one unrelated value - written with their exact '
+        'decimal expansion: values that differ only beyond the sixth decimal, the seventh significant digit or single precision are '
+        'different keys on every route); per population: ALL permutations of the statements when there are <= 7 '
         '(quick: <= 6, and <= 7 on a sample), 50 random permutations otherwise; random partitions into 1-4 input '
         'calls / files / directory chain / wide directory (directory and file names with a leading dot, blanks and the glob characters [ ] * ?; sometimes two trees with equally named files) / members of one zip archive or of two archives with equally named members / one file through the bridgepoint loader, each part '
         'ending with a newline, right after its last `;`, with a `-- comment` that no newline ends, or with a bare `--`; '
@@ -54,7 +60,8 @@ ASSUMPTIONS = [
     'corresponding referential / identifying attributes have the same declared type (Python compares 1 == 1.0 == True)',
     'positional INSERTs carry a value for every declared attribute, or leave out only trailing REFERENTIAL attributes (these stay '
     'unset: an unset key refers to nothing); any other missing attribute would take a generator-drawn / type default (C19)',
-    'REAL values are dyadic rationals with at most six fraction digits (float() and %f are exact on them)',
+    'REAL values are dyadic rationals with at most six fraction digits (float() and %f are exact on them), in the family '
+    'real-fine multiples of 2**-30 below 2**21 written with all their (at most 30) fraction digits (float() is exact on them)',
     'the order in which os.walk lists sibling files is the operating system\'s; the harness takes it from its own os.walk of the tree',
 ]
 TRUSTED_EXTRA = ['harness/loadgen.py (generator, SQL text writer, nested-loop oracle)']
@@ -185,14 +192,67 @@ def _error_case(rng):
     return stmts, kind
 
 
+_RUNIT = 30        # the `real-fine` family counts REAL values in multiples of 2**-30 (about 9.3e-10)
+
+
+def _real_fine_population(rng):
+    """a population whose keys are mostly of type REAL and whose REAL values come from a pool of NEIGHBOURS on a fine
+    dyadic grid: a base value, the values one step above and below it, and an unrelated value; the step is 2**-30,
+    2**-24 (lost in single precision), 2**-20 (just below the sixth decimal), 2**-19 (just above it) or 0.25 (lost in
+    the seventh significant digit of the large bases).  Different values, hence no link; equal values link - whatever
+    number of digits some printed form of them keeps.  Every REAL lexeme is the exact decimal expansion of its value."""
+    u = 2 ** _RUNIT
+    bases = [0, u // 2, 3 * u // 2, -u // 4, u, 5 * u // 2, -3 * u, 2 ** 20 * u + u // 2, 123456 * u + u // 8]
+    base = rng.choice(bases)
+    eps = rng.choice([1, 1, 2 ** 6, 2 ** 10, 2 ** 11, u // 4])
+    other = rng.choice([b for b in bases[:4] if b != base])
+    pool = G._ByType(dict(G.POOL))
+    pool['REAL'] = [base, base + eps, base - eps, other]
+    stmts = G.gen_population(rng, max_rows=rng.choice([2, 3, 4]), phrase_mode='plain' if rng.random() < 0.75 else 'mixed',
+                             inferred_p=0.0, allow_empty_keys=False,
+                             types=['REAL', 'REAL', 'REAL', 'INTEGER', 'STRING', 'UNIQUE_ID'], pool=pool)
+    for s in stmts:
+        if s['t'] == 'insert':
+            for k, tv in enumerate(s['vals']):
+                if tv[0] == 'r':
+                    s['lex'][k] = _fine_lexeme(tv[1], _RUNIT, rng.choice([0, 0, 1, 2]))
+    return stmts
+
+
+_FAMILIES = ['small', 'seven', 'real-fine', 'big', 'api', 'shared', 'err']
+
+
 def generate(ctx):
+    return _gen(ctx, _FAMILIES)
+
+
+def search(ctx, broken):
+    """the enlarged search (an obligation or the correspondence is broken, no failing input yet): the same families
+    with their thorough sizes, INTERLEAVED - every chunk of 60 cases holds cases of every family, so that the search
+    budget is not spent on the first family alone"""
+    gens = [(_gen(ctx, fams), share) for fams, share in ((['small', 'seven'], 10), (['real-fine'], 10), (['big'], 4),
+                                                         (['api'], 20), (['shared'], 10), (['err'], 6))]
+    while gens:
+        alive = []
+        for g, share in gens:
+            took = 0
+            for c in itertools.islice(g, share):
+                took += 1
+                yield c
+            if took == share:
+                alive.append((g, share))
+        gens = alive
+
+
+def _gen(ctx, fams):
     rng = ctx.rng.fork('gen')
-    n_small = ctx.pick(110, 900)
-    n_seven = ctx.pick(3, 40)
-    n_big = ctx.pick(60, 600)
-    n_api = ctx.pick(260, 3000)
-    n_err = ctx.pick(40, 300)
-    n_shared = ctx.pick(60, 600)
+    n_fine = ctx.pick(40, 400) * ('real-fine' in fams)
+    n_small = ctx.pick(110, 900) * ('small' in fams)
+    n_seven = ctx.pick(3, 40) * ('seven' in fams)
+    n_big = ctx.pick(60, 600) * ('big' in fams)
+    n_api = ctx.pick(260, 3000) * ('api' in fams)
+    n_err = ctx.pick(40, 300) * ('err' in fams)
+    n_shared = ctx.pick(60, 600) * ('shared' in fams)
     all_routes = ['files', 'bp-file', 'bp-dir', 'bp-dirwide', 'bp-zip', 'bp-load', 'keep-order']
     i = 0
     # small populations: every permutation
@@ -217,6 +277,16 @@ def generate(ctx):
             continue
         made += 1
         yield {'fam': 'seven', 'stmts': stmts, 'variants': _fix(r, stmts, _variants(r, 7, 7, 0, [])), 'api': False}
+    # REAL keys that differ only beyond the precision of a printed / narrowed form (every route: loader, files, new,
+    # clone, batch_relate)
+    for j in range(n_fine):
+        r = rng.fork('real-fine', j)
+        stmts = _real_fine_population(r)
+        if len(stmts) < 2:
+            continue
+        yield {'fam': 'real-fine', 'runit': _RUNIT, 'stmts': stmts,
+               'variants': _fix(r, stmts, _variants(r, len(stmts), 0, 3, ['keep-order'] + r.sample(all_routes[:6], 1))),
+               'api': True}
     # larger populations: 50 random permutations, all routes
     for j in range(n_big):
         r = rng.fork('big', j)
@@ -416,7 +486,31 @@ def _load(stmts, v, mine, cache=None):
         shutil.rmtree(d, ignore_errors=True)
 
 
-def _canon_val(v, ty):
+def _rden(unit):
+    """REAL payloads of a case count multiples of 10**-6, or - case['runit'] = k - multiples of 2**-k"""
+    return 2 ** unit if unit else 10 ** 6
+
+
+def _py(tv, unit):
+    """typed value -> the Python value (exact: the REAL values generated are dyadic rationals of < 53 bits)"""
+    if unit and tv[0] == 'r':
+        return float(Fraction(tv[1], 2 ** unit))
+    return G.py_value(tv)
+
+
+def _fine_lexeme(n, unit, style=0):
+    """the EXACT decimal expansion of n / 2**unit (it has at most `unit` fraction digits, float() reads it back exactly)"""
+    sign = '-' if n < 0 else ''
+    whole, rem = divmod(abs(n), 2 ** unit)
+    frac = ('%0*d' % (unit, rem * 5 ** unit)).rstrip('0')
+    if not frac and style == 1 and not sign:
+        return '%d' % whole             # a REAL column accepts an integer lexeme
+    if style == 2:
+        frac += '00'
+    return '%s%d.%s' % (sign, whole, frac or '0')
+
+
+def _canon_val(v, ty, unit=0):
     ty = ty.upper()
     if v is None:
         return Sym('none')
@@ -429,13 +523,13 @@ def _canon_val(v, ty):
     if ty == 'STRING' and isinstance(v, str):
         return [Sym('s'), v]
     if ty == 'REAL' and isinstance(v, float):
-        f = Fraction(v) * 10 ** 6          # exact arithmetic, no float comparison
+        f = Fraction(v) * _rden(unit)      # exact arithmetic, no float comparison
         if f.denominator == 1:
             return [Sym('r'), f.numerator]
     return [Sym('odd'), repr(v)]
 
 
-def _dump(m, mine):
+def _dump(m, mine, unit=0):
     """ordered dump in the format of Driver/LoadCodec.lean"""
     classes = []
     pos = {}
@@ -446,7 +540,7 @@ def _dump(m, mine):
         rows = []
         for i, inst in enumerate(mc.storage):
             pos[id(inst)] = i
-            rows.append([[n, _canon_val(v, tys[n])] for n, v in inst.__dict__.items() if n in tys])
+            rows.append([[n, _canon_val(v, tys[n], unit)] for n, v in inst.__dict__.items() if n in tys])
         classes.append([mc.kind, [[n, Sym(G.TYSYM.get(t.upper(), t))] for n, t in mc.attributes],
                         [[n, list(a)] for n, a in mc.indices.items()], rows])
     assocs = []
@@ -869,7 +963,7 @@ class _ApiSim(object):
         return out
 
 
-def _route_api(stmts, raw, order, clone_from=None):
+def _route_api(stmts, raw, order, clone_from=None, unit=0):
     """rows created through new() (or clone()) in `order` -> (dump, outcomes, statement ids per kind)"""
     m = _x.MetaModel(_x.IntegerGenerator())
     _schema_into(m, stmts)
@@ -881,7 +975,7 @@ def _route_api(stmts, raw, order, clone_from=None):
             if clone_from is not None:
                 m.clone(clone_from[i])
             else:
-                args = [None if raw[i].get(n) is None else G.py_value(raw[i][n]) for n, _ in c['attrs']]
+                args = [None if raw[i].get(n) is None else _py(raw[i][n], unit) for n, _ in c['attrs']]
                 m.new(s['kind'], *args)
             outcomes.append(Sym('ok'))
         except _x.RelateException:
@@ -961,7 +1055,7 @@ def _check_api(route, stmts, raw, order, dump, outcomes, expected, fail, modelle
     return None
 
 
-def _check_batch_relate(stmts, raw, expected, fail, stats):
+def _check_batch_relate(stmts, raw, expected, fail, stats, unit=0):
     """`Association.batch_relate`, the second implementation of the join in xtuml/meta.py (a query per referring
     instance instead of the loader's hash index), used the supported way: classes and associations are defined, the
     rows are created through the API with their referential values as plain attributes (the associations are not
@@ -984,7 +1078,7 @@ def _check_batch_relate(stmts, raw, expected, fail, stats):
         for i, s_ in enumerate(stmts):
             if s_['t'] == 'insert':
                 c = G.class_of(stmts, s_['kind'])
-                inst_of[i] = m.new(s_['kind'], *[None if raw[i].get(n) is None else G.py_value(raw[i][n]) for n, _ in c['attrs']])
+                inst_of[i] = m.new(s_['kind'], *[None if raw[i].get(n) is None else _py(raw[i][n], unit) for n, _ in c['attrs']])
         for ass in asses:
             ass.batch_relate()
         for ass in asses:
@@ -1011,6 +1105,7 @@ def _check_batch_relate(stmts, raw, expected, fail, stats):
 
 def run_impl(case):
     stmts = case['stmts']
+    unit = case.get('runit', 0)
     fails = []
 
     def fail(sig, what):
@@ -1035,7 +1130,7 @@ def run_impl(case):
         try:
             m, seen_order = _load(stmts, v, mine, cache)
             v = dict(v, order=seen_order)
-            dump = _dump(m, mine if bp else None)
+            dump = _dump(m, mine if bp else None, unit)
         except _DOC as e:
             m = None
             dump = [Sym('error')]
@@ -1066,7 +1161,7 @@ def run_impl(case):
         seen_orders.append(v['order'])
         obs.append(dump if n == 0 else _digest(dump))
     if case.get('api') and base_dump is not None and base_dump[0] == 'ok':
-        _check_batch_relate(stmts, raw, expected, fail, stats)
+        _check_batch_relate(stmts, raw, expected, fail, stats, unit)
     api_obs = None
     if case.get('api') and base_dump is not None and base_dump[0] == 'ok' \
             and all(G.class_of(stmts, stmts[i]['kind']) for i in ins_ids):
@@ -1074,8 +1169,8 @@ def run_impl(case):
         guard = _api_guard(stmts, raw, expected) if order is not None else 'cyclic'
         if order is None:
             order = ins_ids
-        m2, outcomes = _route_api(stmts, raw, order)
-        d2 = _dump(m2, None)
+        m2, outcomes = _route_api(stmts, raw, order, unit=unit)
+        d2 = _dump(m2, None, unit)
         if guard is None:
             guard = _check_api('api', stmts, raw, order, d2, outcomes, expected, fail, _api_modelled(case))
         stats['api_guard_%s' % (guard or 'holds')] = 1
@@ -1086,8 +1181,8 @@ def run_impl(case):
         for kind, lst in ids.items():
             for k, i in enumerate(lst):
                 inst_of[i] = m1.find_metaclass(kind).storage[k]
-        m3, outcomes3 = _route_api(stmts, raw, order, clone_from=inst_of)
-        d3 = _dump(m3, None)
+        m3, outcomes3 = _route_api(stmts, raw, order, clone_from=inst_of, unit=unit)
+        d3 = _dump(m3, None, unit)
         if guard is None and Sym('RecursionError') not in outcomes3:
             _check_api('clone', stmts, raw, order, d3, outcomes3, expected, fail, _api_modelled(case))
         api_obs = [[outcomes, d2[2], d2[3]], [outcomes3, d3[2], d3[3]]]
